@@ -532,6 +532,148 @@ def backlog(rng, i):
     return {"kind": "backlog", "cfg": {"write_cycle": cycle}, "steps": steps}
 
 
+def mixed(rng, i):
+    """Everything at once: several channels with RPCs, nowait calls, multi-frame publishes, consumers,
+    listeners, withheld replies, server deliveries / confirms / returns / cancels / channel closes,
+    transport stalls, read and write segmentation - in a seeded interleaving that never makes the
+    controller wait on itself."""
+    fm = rng.choice([4096, 4096, 131072])
+    cfg = {"tune": [rng.choice([0, 12]), fm, 0]}
+    if rng.random() < 0.4:
+        cfg["read_cycle"] = [rng.choice([1, 3, 7, 8, 9, 100, 4096]) for _ in range(rng.randrange(1, 4))]
+    if rng.random() < 0.4:
+        cfg["write_cycle"] = [rng.choice([1, 5, 7, 8, 9, 50, 5000]) for _ in range(rng.randrange(1, 4))]
+    n = rng.choice([1, 2, 3])
+    used_ids = rng.sample(range(1, 12), n)
+    steps, ids = opens(n, used_ids)
+    live = {h: {"cons": [], "inflight": False, "lst": {}} for h in NAMES[:n]}
+    dead = set()
+    stalled = False
+    mid = 1000 * (i % 2000)
+    pid = 0
+    nl = 0
+    nc = 0
+    nextname = n
+
+    def unstall():
+        nonlocal stalled
+        if stalled:
+            steps.append({"do": "budget", "n": None})
+            stalled = False
+
+    for _ in range(rng.randrange(6, 22)):
+        usable = [h for h in live if h not in dead]
+        if not usable:
+            break
+        h = rng.choice(usable)
+        st = live[h]
+        ch = ids[h]
+        r = rng.random()
+        if st["inflight"]:
+            if r < 0.5:
+                unstall()
+                steps.append({"do": "unhold", "ch": ch})
+                steps.append({"do": "release", "ch": ch})
+                steps.append({"do": "wait", "who": h})
+                st["inflight"] = False
+            elif st["cons"] and r < 0.8:
+                mid += 1
+                ln = rng.choice([0, 5, 300])
+                steps.append(srv(deliver(ch, rng.choice(st["cons"]), mid, ln, partition(rng, ln))))
+            continue
+        if r < 0.16:
+            unstall()
+            o = rng.choice(SYNC_OPS)
+            if o == "get" and rng.random() < 0.6:
+                mid += 1
+                ln = rng.choice([0, 9, 700])
+                steps.append({"do": "getscript", "ch": ch, "mid": mid, "len": ln, "chunks": partition(rng, ln)})
+            steps.append(op(h, o, q="q%d" % rng.randrange(5)))
+        elif r < 0.24:
+            steps.append(op(h, rng.choice(NOWAIT_OPS), q="n%d" % rng.randrange(5)))
+        elif r < 0.38:
+            pid += 1
+            steps.append(op(h, "publish", len=rng.choice([0, 10, 4088, 5000, 20000]), pid=300 * i + pid,
+                            mandatory=rng.random() < 0.3, immediate=rng.random() < 0.2,
+                            x=rng.choice(["", "ex"]), rk=rng.choice(["k1", "k2"])))
+        elif r < 0.46:
+            unstall()
+            steps.append({"do": "hold", "ch": ch})
+            steps.append(dict(op(h, rng.choice(["declare", "qos", "purge", "exdeclare"])), **{"async": True}))
+            st["inflight"] = True
+        elif r < 0.54:
+            unstall()
+            nc += 1
+            c = "m%d" % nc
+            steps.append({"do": "consume", "h": h, "as": c})
+            st["cons"].append(c)
+        elif r < 0.66 and st["cons"]:
+            mid += 1
+            ln = rng.choice([0, 1, 64, 5000])
+            steps.append(srv(deliver(ch, rng.choice(st["cons"]), mid, ln, partition(rng, ln))))
+        elif r < 0.71 and st["cons"]:
+            unstall()
+            c = st["cons"].pop(rng.randrange(len(st["cons"])))
+            steps.append({"do": rng.choice(["cancel", "dropc"]), "h": h, "c": c})
+        elif r < 0.75 and st["cons"]:
+            c = st["cons"].pop(rng.randrange(len(st["cons"])))
+            steps.append(srv({"k": "cancel", "ch": ch, "tag": c, "nowait": rng.random() < 0.5}))
+        elif r < 0.81:
+            nl += 1
+            what = rng.choice(["confirms", "returns"])
+            steps.append({"do": "listen", "h": h, "what": what, "as": "X%d" % nl})
+            st["lst"][what] = "X%d" % nl
+        elif r < 0.87:
+            k = rng.choice(["ack", "nack", "return", "blocked"])
+            if k == "return":
+                mid += 1
+                steps.append(srv({"k": "return", "ch": ch, "mid": mid, "len": 7, "chunks": [3, 4], "code": 312, "text": "NO_ROUTE"}))
+            elif k == "blocked":
+                steps.append(srv({"k": rng.choice(["blocked", "unblocked"]), "text": "mem"}))
+            else:
+                steps.append(srv({"k": k, "ch": ch, "dtag": rng.randrange(1, 4), "multiple": rng.random() < 0.3}))
+        elif r < 0.90:
+            steps.append(srv({"k": "chclose", "ch": ch, "code": 406, "text": "PRECONDITION_FAILED - mixed"}))
+            steps.append({"do": "sync"})
+            dead.add(h)
+        elif r < 0.93:
+            unstall()
+            steps.append({"do": "close", "h": h})
+            dead.add(h)
+        elif r < 0.96 and nextname < len(NAMES):
+            unstall()
+            newid = rng.choice([x for x in range(1, 12) if x not in used_ids])
+            used_ids.append(newid)
+            name = NAMES[nextname]
+            nextname += 1
+            steps.append({"do": "open", "as": name, "req": newid})
+            ids[name] = newid
+            live[name] = {"cons": [], "inflight": False, "lst": {}}
+        elif r < 0.98 and not stalled:
+            steps.append({"do": "budget", "n": 0})
+            stalled = True
+        else:
+            unstall()
+            steps.append({"do": "sync"})
+            if st["cons"]:
+                steps.append({"do": "drain", "c": rng.choice(st["cons"])})
+    unstall()
+    for h, st in live.items():
+        if st["inflight"]:
+            steps.append({"do": "unhold", "ch": ids[h]})
+            steps.append({"do": "release", "ch": ids[h]})
+            steps.append({"do": "wait", "who": h})
+    steps.append({"do": "sync"})
+    end = rng.random()
+    if end < 0.25:
+        steps.append(srv({"k": "connclose", "code": 320, "text": "CONNECTION_FORCED - mixed"}))
+        steps.append({"do": "sync"})
+    for h in live:
+        steps.append(op(h, "qos"))
+    steps.append({"do": "closeconn"})
+    return {"kind": "mixed", "cfg": cfg, "steps": steps}
+
+
 def pubflags(rng, i):
     """Runs of publishes on one channel to the SAME exchange and routing key whose mandatory /
     immediate flags change from one publish to the next (and repeat)."""
@@ -711,7 +853,7 @@ def batches(rng, maxlen, bases, reps=1):
     return res
 
 
-FAMILIES = {"pubflags": pubflags, "backlog": backlog, "hb_silence": hb_silence, "listener_cross": listener_cross, "close_slow": close_slow, "consumer_drop": consumer_drop, "rpc": rpc, "content": content, "consumer": consumer, "listeners": listeners,
+FAMILIES = {"mixed": mixed, "pubflags": pubflags, "backlog": backlog, "hb_silence": hb_silence, "listener_cross": listener_cross, "close_slow": close_slow, "consumer_drop": consumer_drop, "rpc": rpc, "content": content, "consumer": consumer, "listeners": listeners,
             "connclose": connclose, "chanclose": chanclose}
 
 
